@@ -181,3 +181,142 @@ pub(super) fn eph_scenarios(rec: &mut Rec, rng: &mut Rng, secp: &Secp, rounds: u
 		node.pm.socket_disconnected(&d2);
 	}
 }
+
+// ------------------------------------------------------------------------------------------------
+// disconnect bookkeeping, timer branches, replayed RESPONDER transcript (oracles, no model ops)
+// ------------------------------------------------------------------------------------------------
+
+fn take_n(d: &Desc, n: usize) -> Option<Vec<u8>> { let mut s = d.s.lock().unwrap(); if s.out.len() < n { None } else { Some(s.out.drain(..n).collect()) } }
+
+/// the harness (static key `my`) connects INBOUND to `node`, completes the handshake and the Init exchange
+fn hs_inbound(node: &Node, rng: &mut Rng, secp: &Secp, my: &SecretKey, id: u64) -> Result<(Enc, Desc), String> {
+	let signer = TestNodeSigner::new(*my);
+	let mut d = Desc::new(id); d.s.lock().unwrap().budget = usize::MAX / 2;
+	let mut enc = Enc::new_outbound(node.id, rand_sk(rng));
+	let act1 = enc.get_act_one(secp);
+	node.pm.new_inbound_connection(d.clone(), None).map_err(|_| "new_inbound_connection failed")?;
+	node.pm.read_event(&mut d, &act1).map_err(|_| "genuine act one rejected")?;
+	node.pm.process_events();
+	let act2 = take_n(&d, 50).ok_or("no act two written")?;
+	let (act3, _) = enc.process_act_two(&act2, &&signer).map_err(|_| "genuine act two rejected")?;
+	node.pm.read_event(&mut d, &act3).map_err(|_| "genuine act three rejected (is the node id still registered?)")?;
+	node.pm.process_events();
+	let hdr = take_n(&d, 18).ok_or("no Init written")?;
+	let len = enc.decrypt_length_header(&hdr).map_err(|_| "init header")? as usize;
+	let mut body = take_n(&d, len + 16).ok_or("short Init")?;
+	enc.decrypt_message(&mut body).map_err(|_| "init body")?; body.truncate(len);
+	let f = enc.encrypt_buffer(&body).map_err(|_| "encrypt")?;
+	node.pm.read_event(&mut d, &f).map_err(|_| "genuine Init rejected")?;
+	node.pm.process_events();
+	d.s.lock().unwrap().out.clear();
+	Ok((enc, d))
+}
+
+pub(super) fn book_scenarios(rec: &mut Rec, rng: &mut Rng, secp: &Secp, rounds: usize) {
+	for round in 0..rounds {
+		let node = make_node(secp, rand_sk(rng), rng.bytes32());
+		let my = rand_sk(rng); let my_id = pk(secp, &my);
+		let path = round % 5;
+		let pname = ["socket_disconnected", "disconnect_by_node_id", "corrupted frame (read_event Err)", "ping timeout (silent peer)", "peer answers every ping"][path];
+		let ctx = format!("disconnect path: {} ; honest peer node id {} ; node secret {}", pname, hex(&my_id.serialize()), hex(&node.secret.secret_bytes()));
+		let r = guarded(AssertUnwindSafe(|| -> Result<(), String> {
+			let (mut enc, mut d) = hs_inbound(&node, rng, secp, &my, 10 + round as u64)?;
+			let f = enc.encrypt_buffer(&custom(known_ty(rng), 4, 1)).unwrap();
+			node.pm.read_event(&mut d, &f).map_err(|_| "genuine message rejected")?;
+			if node.h.received.lock().unwrap().len() != 1 || node.pm.peer_by_node_id(&my_id).is_none() { return Err("genuine session did not deliver".into()); }
+			let mut may_touch_old = true;
+			match path {
+				0 => { node.pm.socket_disconnected(&d); may_touch_old = false; },
+				1 => { node.pm.disconnect_by_node_id(my_id); if !d.s.lock().unwrap().disconnected { return Err("VIOLATION disconnect_by_node_id did not call disconnect_socket".into()); } },
+				2 => { let mut bad = enc.encrypt_buffer(&custom(known_ty(rng), 4, 2)).unwrap(); let o = rng.below(bad.len() as u64) as usize; bad[o] ^= 1 << rng.below(8); if node.pm.read_event(&mut d, &bad).is_ok() { return Err("VIOLATION a corrupted frame was accepted".into()); } may_touch_old = false; },
+				3 => {
+					// handshake complete, Init read since the last tick: tick 1 sends the ping, tick 2 (nothing received) must drop the peer
+					node.pm.timer_tick_occurred();
+					if node.pm.peer_by_node_id(&my_id).is_none() || d.s.lock().unwrap().disconnected { return Err("VIOLATION ping timeout: the peer was dropped by the FIRST timer tick after an active period (expected: ping sent, dropped by the second silent tick)".into()); }
+					node.pm.timer_tick_occurred();
+					if !d.s.lock().unwrap().disconnected { return Err("VIOLATION ping timeout: a peer that stayed silent for two timer ticks (ping unanswered, nothing received) was not disconnected".into()); }
+				},
+				_ => {
+					// the peer answers each ping with a pong before the next tick: never dropped
+					for t in 0..(6 + rng.below(6)) {
+						node.pm.timer_tick_occurred(); node.pm.process_events();
+						if d.s.lock().unwrap().disconnected || node.pm.peer_by_node_id(&my_id).is_none() { return Err(format!("VIOLATION a peer that answered every ping was disconnected by timer tick #{}", t + 1)); }
+						d.s.lock().unwrap().out.clear();
+						let pong = enc.encrypt_buffer(&em_pong(0).plain).unwrap();
+						node.pm.read_event(&mut d, &pong).map_err(|_| "VIOLATION a genuine pong was rejected")?;
+					}
+					node.pm.disconnect_by_node_id(my_id);
+				},
+			}
+			// after ANY disconnect: not listed; nothing of the old session is handled any more; the same node id can connect again
+			if node.pm.peer_by_node_id(&my_id).is_some() { return Err("VIOLATION the node id is still listed after the disconnect".into()); }
+			if may_touch_old {
+				let late = enc.encrypt_buffer(&custom(known_ty(rng), 4, 3)).unwrap();
+				let _ = guarded(AssertUnwindSafe(|| node.pm.read_event(&mut d, &late).is_ok()));
+				if node.h.received.lock().unwrap().len() != 1 { return Err("VIOLATION a message of the old session was handled after the disconnect".into()); }
+			}
+			let (mut enc2, mut d2) = hs_inbound(&node, rng, secp, &my, 5000 + round as u64).map_err(|e| format!("VIOLATION a fresh connection by the same node id failed after the disconnect: {}", e))?;
+			let f = enc2.encrypt_buffer(&custom(known_ty(rng), 6, 4)).unwrap();
+			if node.pm.read_event(&mut d2, &f).is_err() || node.h.received.lock().unwrap().len() != 2 || node.pm.peer_by_node_id(&my_id).is_none() { return Err("VIOLATION the fresh connection by the same node id does not deliver / is not listed".into()); }
+			Ok(())
+		}));
+		match r {
+			Ok(Ok(())) => {},
+			Ok(Err(e)) => rec.oracle_fail(format!("disconnect bookkeeping: {} ; {}", e.trim_start_matches("VIOLATION "), ctx)),
+			Err(p) => rec.oracle_fail(format!("disconnect bookkeeping: PeerManager panicked: {} ; {}", p, ctx)),
+		}
+		oracle_case(rec, &format!("note book round {} path {}", round, path), &format!("book:{}", ["socket_disconnected", "disconnect_by_node_id", "read-error", "ping-timeout-silent", "ping-answered"][path]));
+
+		// ---- handshake timeout: a connection that never completes the handshake survives one tick, not two
+		let node = make_node(secp, rand_sk(rng), rng.bytes32());
+		let stage = round % 3; // nothing sent / act one sent (inbound) / outbound waiting for act two
+		let mut d = Desc::new(1); d.s.lock().unwrap().budget = usize::MAX / 2;
+		let r = guarded(AssertUnwindSafe(|| -> Result<(), String> {
+			match stage {
+				0 => { node.pm.new_inbound_connection(d.clone(), None).map_err(|_| "inbound")?; },
+				1 => { node.pm.new_inbound_connection(d.clone(), None).map_err(|_| "inbound")?; let mut e = Enc::new_outbound(node.id, rand_sk(rng)); let a1 = e.get_act_one(secp); node.pm.read_event(&mut d, &a1).map_err(|_| "act one")?; },
+				_ => { let _ = node.pm.new_outbound_connection(my_id, d.clone(), None).map_err(|_| "outbound")?; },
+			}
+			node.pm.timer_tick_occurred();
+			if d.s.lock().unwrap().disconnected { return Err("a connection with an incomplete handshake was dropped by the FIRST timer tick".into()); }
+			node.pm.timer_tick_occurred();
+			if !d.s.lock().unwrap().disconnected { return Err("a connection whose handshake was still incomplete at the second timer tick was not disconnected".into()); }
+			Ok(())
+		}));
+		match r { Ok(Ok(())) => {}, Ok(Err(e)) => rec.oracle_fail(format!("handshake timeout: {} ; stage {} (0 = nothing sent, 1 = act one sent, 2 = outbound awaiting act two)", e, stage)), Err(p) => rec.oracle_fail(format!("handshake timeout: PeerManager panicked: {}", p)) }
+		oracle_case(rec, &format!("note hs-timeout round {} stage {}", round, stage), "book:handshake-timeout");
+
+		// ---- a recorded RESPONDER transcript replayed against a new OUTBOUND connection to the same node id
+		let node = make_node(secp, rand_sk(rng), rng.bytes32());
+		let signer = TestNodeSigner::new(my);
+		let mut transcript: Vec<Vec<u8>> = vec![];
+		let r = guarded(AssertUnwindSafe(|| -> Result<(bool, bool, usize), String> {
+			let mut d = Desc::new(1); d.s.lock().unwrap().budget = usize::MAX / 2;
+			let act1 = node.pm.new_outbound_connection(my_id, d.clone(), None).map_err(|_| "outbound")?;
+			let mut enc = Enc::new_inbound(&&signer);
+			let act2 = enc.process_act_one_with_keys(&act1, &&signer, rand_sk(rng), secp).map_err(|_| "act one rejected")?;
+			node.pm.read_event(&mut d, &act2).map_err(|_| "genuine act two rejected")?; transcript.push(act2.to_vec());
+			node.pm.process_events();
+			let act3 = take_n(&d, 66).ok_or("no act three")?;
+			enc.process_act_three(&act3).map_err(|_| "act three rejected")?;
+			let hdr = take_n(&d, 18).ok_or("no Init")?; let len = enc.decrypt_length_header(&hdr).map_err(|_| "hdr")? as usize;
+			let mut body = take_n(&d, len + 16).ok_or("short Init")?; enc.decrypt_message(&mut body).map_err(|_| "body")?; body.truncate(len);
+			for m in [body, custom(known_ty(rng), 7, 5)] { let f = enc.encrypt_buffer(&m).unwrap(); node.pm.read_event(&mut d, &f).map_err(|_| "genuine frame rejected")?; transcript.push(f); }
+			if node.h.received.lock().unwrap().len() != 1 { return Err("genuine outbound session did not deliver".into()); }
+			node.pm.socket_disconnected(&d);
+			// replay
+			let mut d2 = Desc::new(2); d2.s.lock().unwrap().budget = usize::MAX / 2;
+			let _ = node.pm.new_outbound_connection(my_id, d2.clone(), None).map_err(|_| "outbound 2")?;
+			let mut dropped = false;
+			for (i, c) in transcript.iter().enumerate() { if node.pm.read_event(&mut d2, c).is_err() { dropped = i == 0; break; } node.pm.process_events(); }
+			Ok((dropped, node.pm.peer_by_node_id(&my_id).is_some(), node.h.received.lock().unwrap().len() - 1))
+		}));
+		match r {
+			Ok(Ok((true, false, 0))) => {},
+			Ok(Ok((dropped, listed, handled))) => rec.oracle_fail(format!("a replayed responder transcript (act two, Init, one message recorded from an earlier outbound session) was accepted on a new outbound connection to the same node id: dropped-at-act-two={} peer-shown-connected={} replayed-messages-handled={} ; recorded responder bytes [{}] ; responder node id {} ; node secret {}", dropped, listed, handled, transcript.iter().map(|c| hex(c)).collect::<Vec<_>>().join(","), hex(&my_id.serialize()), hex(&node.secret.secret_bytes()))),
+			Ok(Err(e)) => rec.oracle_fail(format!("responder-replay scenario could not run: {}", e)),
+			Err(p) => rec.oracle_fail(format!("responder-replay scenario panicked: {}", p)),
+		}
+		oracle_case(rec, &format!("note responder-replay round {}", round), "eph:responder-replay-dropped");
+	}
+}
